@@ -78,7 +78,21 @@ pub type SpanReading = Vec<(String, String, i32, &'static UnitDef)>;
 /// All segmentations of `word` into (prefix? name)+ over the documented
 /// vocabulary, with the matched text of every element.
 pub fn readings_spans(word: &str) -> Vec<SpanReading> {
-    fn rec(rest: &str, acc: &mut SpanReading, out: &mut Vec<SpanReading>) {
+    readings_spans_with(word, &[])
+}
+
+/// The SI prefixes adopted in 2022 (ronna, quetta, ronto, quecto). The tool does not know them
+/// and the generators do not use them; they only widen what counts as a *valid reading* of a word
+/// the tool accepts, so that a build which learns them is not reported.
+pub const PREFIXES_2022: [(&str, &str, i32); 4] = [("R", "ronna", 27), ("Q", "quetta", 30), ("r", "ronto", -27), ("q", "quecto", -30)];
+
+/// Readings of `word` that are valid when the 2022 prefixes are admitted as well.
+pub fn readings_2022(word: &str) -> Vec<Reading> {
+    readings_spans_with(word, &PREFIXES_2022).into_iter().map(|r| r.into_iter().map(|(_, _, p, u)| (p, u)).collect()).collect()
+}
+
+fn readings_spans_with(word: &str, extra: &'static [(&'static str, &'static str, i32)]) -> Vec<SpanReading> {
+    fn rec(rest: &str, acc: &mut SpanReading, out: &mut Vec<SpanReading>, extra: &'static [(&'static str, &'static str, i32)]) {
         if rest.is_empty() {
             if !acc.is_empty() {
                 out.push(acc.clone());
@@ -89,7 +103,7 @@ pub fn readings_spans(word: &str) -> Vec<SpanReading> {
             return;
         }
         let mut prefixes: Vec<(&str, i32)> = vec![("", 0)];
-        for (sym, long, p) in PREFIXES {
+        for (sym, long, p) in PREFIXES.iter().chain(extra.iter()) {
             if rest.starts_with(sym) {
                 prefixes.push((sym, *p));
             }
@@ -103,7 +117,7 @@ pub fn readings_spans(word: &str) -> Vec<SpanReading> {
                 for name in u.names {
                     if let Some(tail) = strip(after, name) {
                         acc.push((ptext.to_string(), name.to_string(), p, u));
-                        rec(tail, acc, out);
+                        rec(tail, acc, out, extra);
                         acc.pop();
                     }
                 }
@@ -111,7 +125,7 @@ pub fn readings_spans(word: &str) -> Vec<SpanReading> {
         }
     }
     let mut out = Vec::new();
-    rec(word, &mut Vec::new(), &mut out);
+    rec(word, &mut Vec::new(), &mut out, extra);
     out
 }
 
